@@ -60,11 +60,12 @@ class Behaviour(object):
     """
     __slots__ = ('ignore', 'react_delay', 'react_exit', 'lifetime',
                  'self_status', 'children', 'latency', 'orphan_exit',
-                 'writer', 'label')
+                 'writer', 'label', 'reaps_children')
 
     def __init__(self, ignore=(), react_delay=0.0, react_exit=None,
                  lifetime=None, self_status=0, children=(), latency=0.0,
-                 orphan_exit=False, writer=None, label='obedient'):
+                 orphan_exit=False, writer=None, label='obedient',
+                 reaps_children=True):
         self.ignore = ignore
         self.react_delay = react_delay
         self.react_exit = react_exit
@@ -75,6 +76,7 @@ class Behaviour(object):
         self.orphan_exit = orphan_exit
         self.writer = writer
         self.label = label
+        self.reaps_children = reaps_children
 
     def ignores(self, sig):
         if sig in (SIGKILL, SIGSTOP):
@@ -244,8 +246,12 @@ class SimKernel(object):
         p.death_time = self.sim.now
         p.death_cause = cause
         p.death_seq = self.sim.rec('death', pid, wstatus, cause)
+        parent = self.procs.get(p.ppid)
         if p.ppid == self.getpid_value:
             p.state = 'zombie'
+        elif parent is not None and parent.alive and \
+                not parent.beh.reaps_children:
+            p.state = 'zombie'     # stays a zombie below its (lazy) parent
         else:
             p.state = 'reaped'     # reaped at once by its parent / init
             p.reaped_by = 'parent'
@@ -260,17 +266,22 @@ class SimKernel(object):
             if cp is None:
                 continue
             cp.ppid = 1
+            if cp.state == 'zombie':
+                cp.state = 'reaped'
+                cp.reaped_by = 'init'
             if cp.alive and cp.beh.orphan_exit:
                 self.die(c, status_signal(int(signal.SIGHUP)), 'orphan')
-        parent = self.procs.get(p.ppid)
-        if parent is not None and pid in parent.children:
+        if parent is not None and pid in parent.children \
+                and p.state == 'reaped':
             parent.children.remove(pid)
         if self.on_death is not None:
             self.on_death(p)
         return True
 
     def _deliver(self, p, sig, origin):
-        """signal `sig` takes effect on live process p. returns effect label"""
+        """signal `sig` takes effect on live process p. returns effect label.
+        death causes are prefixed 'ext:' (environment) or 'sup:' (daemon)"""
+        o = 'ext:' if origin == 'external' else 'sup:'
         if p.state == 'stopped' and sig not in (SIGKILL, SIGCONT):
             p.pending.append(sig)
             return 'pending'
@@ -284,7 +295,7 @@ class SimKernel(object):
             return 'cont'
         if sig == SIGKILL:
             return self._schedule_death(p, status_signal(SIGKILL),
-                                        p.beh.latency, 'sigkill')
+                                        p.beh.latency, o + 'sigkill')
         if sig in _STOPPING:
             if sig == SIGSTOP or not p.beh.ignores(sig):
                 p.state = 'stopped'
@@ -297,10 +308,10 @@ class SimKernel(object):
         if p.beh.react_exit is None:
             return self._schedule_death(p, status_signal(sig),
                                         p.beh.react_delay + p.beh.latency,
-                                        'signal')
+                                        o + 'signal')
         return self._schedule_death(p, status_exit(p.beh.react_exit),
                                     p.beh.react_delay + p.beh.latency,
-                                    'caught')
+                                    o + 'caught')
 
     def _schedule_death(self, p, wstatus, delay, cause):
         pid = p.pid
